@@ -70,6 +70,9 @@ Section Table.
   Theorem table_default_unambiguous : distinct_prefixes T.
   Proof. apply nodup_b_spec. apply ok_parts. Qed.
 
+  Theorem table_distinct_names : NoDup (map pname T).
+  Proof. apply nodup_b_spec. apply ok_parts. Qed.
+
   (* default run: at most one plugin matches any call name, so no choice is ever made *)
   Theorem table_single_candidate name p q :
     no_nesting_b T = true ->
